@@ -330,6 +330,24 @@ func cmdCheck() int {
 			}
 		}
 	}
+	// closure: an overlaid directory's files may refer to helpers exported by the stub-set
+	// directories that any of its harnesses use
+	for changed := true; changed; {
+		changed = false
+		for _, h := range all {
+			if !dirs[h.RelDir] {
+				continue
+			}
+			for _, u := range h.Opts.Use {
+				for _, sd := range allStubs {
+					if sd.Set == u && !dirs[sd.RelDir] {
+						dirs[sd.RelDir] = true
+						changed = true
+					}
+				}
+			}
+		}
+	}
 	var ovDecls []harnessDecl
 	seenFile := map[string]bool{}
 	for _, h := range all {
